@@ -373,6 +373,19 @@ def clause(rng, d):
     return '[%s %s, %s]' % (rng.choice(['pivot', 'unpivot']), name(rng), name(rng))
 
 
+def window(rng):
+    """a window clause with every kind of limit on either side: literal or VARIABLE offsets (VTL 2.2 varLimit), both directions"""
+    def lim(side):
+        k = rng.random()
+        if k < 0.2:
+            return 'unbounded preceding' if side == 'from' else 'unbounded following'
+        if k < 0.35:
+            return 'current data point'
+        return '%s %s' % (rng.choice(['1', '2', '0', 'n_w', 'm_w', 'n_w']), rng.choice(['preceding', 'following']))
+    return ' %s between %s and %s' % (rng.choice(['data points', 'range']), lim('from'), lim('to'))
+
+
+
 def ds_expr(rng, d):
     if d <= 0 or rng.random() < 0.2:
         return rng.choice(['DS_1', 'DS_2', 'DS_3', 'DS_3' if (SAFE[0] or rng.random() < 0.7) else "'DS 4'"])
@@ -392,7 +405,8 @@ def ds_expr(rng, d):
         if jn == 'cross_join': using = ''
         return '%s(DS_1 as d1, %s as d2%s%s)' % (jn, ds_expr(rng, d - 1), using, body)
     if k < 0.76: return '%s(%s%s)' % (rng.choice(['sum', 'avg', 'count', 'max', 'min']), ds_expr(rng, d - 1), rng.choice(['', ' group by Id_1', ' group except Id_1', ' group by Id_1 having count() > 1']))
-    if k < 0.8: return '%s(%s over (partition by Id_1 order by Id_2%s))' % (rng.choice(['sum', 'first_value', 'max']), ds_expr(rng, d - 1), rng.choice(['', ' desc', ' data points between 1 preceding and current data point', ' range between unbounded preceding and 2 following']))
+    if k < 0.8: return '%s(%s over (partition by Id_1 order by Id_2%s))' % (rng.choice(['sum', 'first_value', 'max']), ds_expr(rng, d - 1), rng.choice(['', ' desc', ' data points between 1 preceding and current data point', ' range between unbounded preceding and 2 following',
+                                                                                                                                                             window(rng), window(rng)]))
     if k < 0.84: return 'if %s then %s else %s' % (ds_expr(rng, d - 1), ds_expr(rng, d - 1), ds_expr(rng, d - 1))
     if k < 0.88: return '%s(%s, %s)' % (rng.choice(['union', 'intersect', 'setdiff', 'symdiff']), ds_expr(rng, d - 1), ds_expr(rng, d - 1))
     if k < 0.91: return 'check(%s%s%s%s%s)' % (ds_expr(rng, d - 1), rng.choice(['', ' errorcode "E1"', ' errorcode 5']), rng.choice(['', ' errorlevel 2', ' errorlevel "W"']), rng.choice(['', ' imbalance DS_1 - DS_2']), rng.choice(['', ' invalid', ' all']))
